@@ -1366,7 +1366,11 @@ void h_tunnel_bind(void)
 	__CPROVER_assume(g_fw_entry.addrlen >= 0 && g_fw_entry.addrlen <= (int)sizeof(struct sockaddr_storage));
 	g_gid_calls = g_get_calls = 0;
 	struct snap s0 = take_snap();
+	struct fw_query entry0 = g_fw_entry;
 	int r = tunnel_bind(bind_fd, &fds);
+	/* C20: the ring is written by fw_query_put only (that is what the ring lemma of group fwq_ring relies on): relaying a
+	 * reply leaves the remembered entry as it is, so that it keeps answering for its id and nothing else */
+	__CPROVER_assert(g_fw_entry.id == entry0.id && g_fw_entry.addrlen == entry0.addrlen && (!(g_m < sizeof(g_fw_entry.addr)) || ((unsigned char *)&g_fw_entry.addr)[g_m] == ((unsigned char *)&entry0.addr)[g_m]), "relaying a reply does not modify the remembered entry (id, address, length)");
 	__CPROVER_assert(r == 0, "result 0");
 	__CPROVER_assert(g_recv_ret > 0 || g_sendto == 0, "nothing received, nothing relayed");
 	if (g_recv_ret > 0) {
